@@ -604,7 +604,7 @@ def closed_ok(m, max_mag=10**6, max_exp=16):
             st, v = try_ev(n, Env())
             if st == 'ok' and is_num(v) and abs(v) > max_mag:
                 return False
-            if st == 'undef' and 'domain' in v and 'evaluator' in v:
+            if st in ('undef', 'ambig') and 'domain' in str(v) and 'evaluator' in str(v):
                 return False
         if n[0] == 'range' and closed(n):
             st, v = try_ev(n, Env())
